@@ -1921,7 +1921,9 @@ class EntityDef:
         copy.bases = deepcopy(self.bases, memodict)
         copy.helpers = deepcopy(self.helpers, memodict)
         copy.desc = self.desc
-        copy.resources = self.resources
+        # The resources themselves are immutable, but a list of them must not be shared with the copy.
+        # () (no @resources definition) stays as it is.
+        copy.resources = list(self.resources) if isinstance(self.resources, list) else self.resources
         copy.is_alias = self.is_alias
 
         # Avoid copy for these, we know the tags-map is immutable.
